@@ -42,6 +42,10 @@ def main():
                 elif neutral:
                     verdict = "silent (expected)" if p.returncode == 0 else "ALARM ON A BEHAVIOUR-PRESERVING EDIT"
                     bad += p.returncode != 0
+                elif meta.get("expect") == "missed":
+                    # a documented limit (DESIGN 12.4): kept so that the table says so instead of omitting it
+                    verdict = "caught (better than documented)" if fired else "missed (documented limit)"
+                    fired = False
                 else:
                     verdict = "caught" if fired else "MISSED"
                     bad += not fired
